@@ -842,7 +842,8 @@ def replay(ctx, data):
 # ----------------------------------------------------------------------------------------------- source tie (DESIGN §4.2)
 # the definitions of Gen/DecisionsLib.v this property's Props file ties to the model (`*_generated_eq_model`): when
 # tools/gen/decisions_lib.py could not translate the current source text the tie is broken and reported
-GEN_LIB_TARGETS = ['requires_path', 'requires_stats', 'quit_early', 'summary_should_quit', 'standard_should_quit', 'match_more_than_limit']
+GEN_LIB_TARGETS = ['requires_path', 'requires_stats', 'quit_early', 'summary_should_quit', 'standard_should_quit', 'match_more_than_limit',
+                   'json_should_quit', 'json_match_more_than_limit']
 _run_checks = run
 
 
